@@ -13,6 +13,7 @@
 import FtModel.Basic
 import FtModel.Coiter
 namespace Ft
+namespace Arith
 
 /-! ## Part A — boxes and elements -/
 
@@ -465,4 +466,5 @@ def smulDeep (dflt : ν) (d : Nat) (a : Tree Int ν (d + 2)) : Except String (Fi
   if (present dflt (d + 1) a).isEmpty then .ok [] else .error "AttributeError"
 
 end
+end Arith
 end Ft
